@@ -145,6 +145,12 @@ example :
     (append cfg s0 [[9]] (fun _ => false)).1 = { res := .ok, consult := some (4, 4), rolled := some true } := by
   decide +kernel
 
+/-- limits in the upper half of the u64 range never roll -/
+example :
+    let cfg := sizeCfg demoPath true 18446744073709551615 (fun p f d => deleteRoll p f d)
+    (append cfg (init cfg (Disk.empty.set demoPath [1, 2, 3]) () 0) [[9]] (fun _ => false)).1.rolled = none := by
+  decide +kernel
+
 /-- limit 7: a record that makes exactly 7 bytes does not roll, one more byte does -/
 example :
     let cfg := sizeCfg demoPath false 7 (fun p f d => deleteRoll p f d)
